@@ -7,7 +7,10 @@
 (* what the public API shows afterwards (version range, loaded version,    *)
 (* next version, every key's value, height, size, and at a commit the      *)
 (* post-order export of the new version: key, value, node version, height  *)
-(* of every node - the preimage of the root hash).                         *)
+(* of every node - the preimage of the root hash).  Read-only probes       *)
+(* (iteration over ranges in both directions, lookup by key with rank,     *)
+(* lookup by rank, reads of retained versions) are lines too: they must    *)
+(* leave the state unchanged and agree with the specification's operators. *)
 (*                                                                         *)
 (* A line is accepted iff the action of Iavl.tla with the logged arguments *)
 (* is enabled and produces exactly the logged results and observations.    *)
@@ -80,7 +83,25 @@ TVersioned == /\ IsEvent("versioned")
               /\ Ev.t \in Retained => /\ Ev.reads = [k \in Keys |-> vm[Ev.t][k]]
                                       /\ Ev.exp = Post(saved[Ev.t])
 
-TraceNext == TraceReset \/ TSet \/ TSetNil \/ TRemove \/ TSave \/ TRollback \/ TReopen \/ TLoad \/ TLvfo \/ TDelTo \/ TVersioned
+\* SaveChangeSet: the pairs arrive as records [k, v, del]
+TSaveCS   == /\ IsEvent("savecs") /\ SaveChangeSet(Ev.cs) /\ Lst.r.err = Ev.err /\ Obs
+             /\ ~Ev.err => (Lst.r.ver = Ev.rver /\ Ev.exp = Post(Lst.r.tree))
+\* read-only probes of the working tree (t = -1) or of a retained version: iteration over [s, e)
+\* (bounds are keys or None = -1), lookups by key with rank, lookups by rank
+TreeOf(t) == IF t = -1 THEN work ELSE saved[t]
+Flat(ps) == [i \in 1..Len(ps) |-> [k |-> ps[i][1], v |-> ps[i][2]]]
+TIter     == /\ IsEvent("iter") /\ (Ev.t = -1 \/ Ev.t \in Retained)
+             /\ UNCHANGED <<work, saved, first, latest, version, fast, iv, nops, wm, vm, wlog, pins, hist, done>>
+             /\ Ev.items = Flat(RangeOf(TreeOf(Ev.t), Ev.s, Ev.e, Ev.asc, FALSE))
+             \* the traversal algorithm of the code, transcribed, gives the same sequence (TreeTheorems T4)
+             /\ Ev.items = Flat(IterRange(TreeOf(Ev.t), Ev.s, Ev.e, Ev.asc, FALSE))
+TIndex    == /\ IsEvent("index") /\ (Ev.t = -1 \/ Ev.t \in Retained)
+             /\ UNCHANGED <<work, saved, first, latest, version, fast, iv, nops, wm, vm, wlog, pins, hist, done>>
+             /\ LET g == GetWithIndex(TreeOf(Ev.t), Ev.k) IN Ev.idx = g.idx /\ Ev.val = g.val
+             /\ LET b == GetByIndex(TreeOf(Ev.t), Ev.n) IN
+                  IF b = <<>> THEN Ev.bk = 0 ELSE (Ev.bk = b[1] /\ Ev.bv = b[2])
+
+TraceNext == TSaveCS \/ TIter \/ TIndex \/ TraceReset \/ TSet \/ TSetNil \/ TRemove \/ TSave \/ TRollback \/ TReopen \/ TLoad \/ TLvfo \/ TDelTo \/ TVersioned
 
 TraceSpec == TraceInit /\ [][TraceNext]_tvars
 
